@@ -46,7 +46,7 @@ Next ==
                                ELSE "ok")
              [] e.k = "op" ->
                   /\ stack' = stack
-                  /\ v' = Fail(IF e.name \in {"request", "request_key", "request_paste", "trigger", "sched"} /\ e.snap.nb # cur.nb THEN "RequestLeavesNonblocking" ELSE "ok")
+                  /\ v' = Fail(IF e.name \in {"request", "request_key", "request_paste", "request_big", "trigger", "sched"} /\ e.snap.nb # cur.nb THEN "RequestLeavesNonblocking" ELSE "ok")
              [] e.k = "exit" \/ e.k = "raise" ->
                   /\ stack' = SubSeq(stack, 1, Len(stack) - 1)
                   /\ v' = Fail(IF stack = <<>> THEN "MachineryExitWithoutEnter"
